@@ -126,3 +126,85 @@ Theorem C13_conv_set_rdpe_exact :
   forall (mant : R) (k : Z) (s : store), run exact [Imul2 F1 F1 k] (upd s F1 mant) F1 = mant * two_pow k.
 Proof. exact set_rdpe_exact. Qed.
 Print Assumptions C13_conv_set_rdpe_exact.
+
+(* ------------------------------------------------------------------ follow-up: con, inv, div, smod, mod, pow_si steps *)
+(* mpc_con as traced (copy, then negation of the copy: two modelled roundings on Im): 2u *)
+Theorem C13_mpc_con_err :
+  Forall (fun e => forall rnd u, std_model rnd u -> u <= 1 -> forall s, pre (snd e) s ->
+     match outs (snd e) with
+     | [(dr, er); (di, ei)] =>
+         let s' := run rnd (fst e) s in
+         (s' dr - er s) * (s' dr - er s) + (s' di - ei s) * (s' di - ei s)
+           <= (2 * u) * (2 * u) * (er s * er s + ei s * ei s)
+     | _ => False end) entries_con.
+Proof. exact con_all. Qed.
+Print Assumptions C13_mpc_con_err.
+
+(* mpc_inv as traced (rc != c and rc = c), c <> 0, u <= 1/16: |res - 1/c| <= 6 u |1/c| *)
+Theorem C13_mpc_inv_err :
+  Forall (fun e => forall rnd u, std_model rnd u -> u <= / 16 -> forall s, pre (snd e) s ->
+     match outs (snd e) with
+     | [(dr, er); (di, ei)] =>
+         let s' := run rnd (fst e) s in
+         (s' dr - er s) * (s' dr - er s) + (s' di - ei s) * (s' di - ei s)
+           <= (6 * u) * (6 * u) * (er s * er s + ei s * ei s)
+     | _ => False end) entries_inv.
+Proof. exact inv_all. Qed.
+Print Assumptions C13_mpc_inv_err.
+
+(* mpc_div as traced (inv into a local, then the 3-multiplication product), all five aliasing patterns,
+   c2 <> 0, u <= 1/128: |res - c1/c2| <= 24 u |c1/c2| *)
+Theorem C13_mpc_div_err :
+  Forall (fun e => forall rnd u, std_model rnd u -> u <= / 128 -> forall s, pre (snd e) s ->
+     match outs (snd e) with
+     | [(dr, er); (di, ei)] =>
+         let s' := run rnd (fst e) s in
+         (s' dr - er s) * (s' dr - er s) + (s' di - ei s) * (s' di - ei s)
+           <= (24 * u) * (24 * u) * (er s * er s + ei s * ei s)
+     | _ => False end) entries_div.
+Proof. exact div_all. Qed.
+Print Assumptions C13_mpc_div_err.
+
+(* mpc_smod and mpc_mod as traced (mpf_sqrt under the same standard model): 2u *)
+Theorem C13_mpc_smod_err :
+  forall rnd u, std_model rnd u -> u <= 1 -> forall s,
+    Rabs (run rnd prog_mpc_smod_p0 s F1 - (s C1Re * s C1Re + s C1Im * s C1Im))
+      <= 2 * u * Rabs (s C1Re * s C1Re + s C1Im * s C1Im).
+Proof. exact (fun rnd u H Hu s => smod_prog_err rnd u H Hu s I). Qed.
+Print Assumptions C13_mpc_smod_err.
+
+Theorem C13_mpc_mod_err :
+  forall rnd u, std_model rnd u -> u <= 1 -> forall s,
+    Rabs (run rnd prog_mpc_mod_p0 s F1 - sqrt (s C1Re * s C1Re + s C1Im * s C1Im))
+      <= 2 * u * Rabs (sqrt (s C1Re * s C1Re + s C1Im * s C1Im)).
+Proof. exact (fun rnd u H Hu s => mod_prog_err rnd u H Hu s I). Qed.
+Print Assumptions C13_mpc_mod_err.
+
+(* mpc_pow_si: PARTIAL.  Proved: the error recurrences of its two loop steps on approximate operands
+   (relative errors k, k1, k2 in modulus): squaring  k -> 3u(1+k)^2 + k(k+2),  product
+   (k1,k2) -> 17u(1+k1)(1+k2) + k1(1+k2) + k2.  Not mechanised: the induction over the binary expansion
+   of the exponent that iterates them (the traced programs for the exponents -3,-1,0,1,2,3,5,6 have
+   exactness theorems; their error is checked by the differential harness only).  Note that the
+   recurrence doubles k at every squaring: the bound for c^i grows like |i|*u, not log2|i|*u. *)
+Theorem C13_mpc_pow_si_step_err_partial :
+  forall rnd u, std_model rnd u ->
+  (forall (r1 r2 r3 r4 r5 : reg) x1 x2 a1 a2 k, 0 <= k ->
+    (x1 - a1) * (x1 - a1) + (x2 - a2) * (x2 - a2) <= (k * k) * (a1 * a1 + a2 * a2) ->
+    let re := rnd r4 (rnd r2 (x1 * x1) - rnd r3 (x2 * x2)) in
+    let im := rnd r5 (rnd r1 (x1 * x2) * 2) in
+    let er := a1 * a1 - a2 * a2 in let ei := a1 * a2 + a2 * a1 in
+    let k' := 3 * u * (k * (k + 1) + k + 1) + (k * (k + 1) + k) in
+    (re - er) * (re - er) + (im - ei) * (im - ei) <= (k' * k') * (er * er + ei * ei))
+  /\
+  (forall (r1 r2 r3 r4 r5 r6 r7 r8 : reg) x1 x2 a1 a2 y1 y2 b1 b2 k1 k2, 0 <= k1 -> 0 <= k2 ->
+    (x1 - a1) * (x1 - a1) + (x2 - a2) * (x2 - a2) <= (k1 * k1) * (a1 * a1 + a2 * a2) ->
+    (y1 - b1) * (y1 - b1) + (y2 - b2) * (y2 - b2) <= (k2 * k2) * (b1 * b1 + b2 * b2) ->
+    let s1 := rnd r1 (x1 - x2) in let s2 := rnd r2 (y1 + y2) in
+    let p1 := rnd r3 (s1 * s2) in let p2 := rnd r4 (x1 * y2) in let p3 := rnd r5 (x2 * y1) in
+    let re := rnd r7 (rnd r6 (p1 - p2) + p3) in
+    let im := rnd r8 (p2 + p3) in
+    let er := a1 * b1 - a2 * b2 in let ei := a1 * b2 + a2 * b1 in
+    let k' := 17 * u * (k1 * (k2 + 1) + k2 + 1) + (k1 * (k2 + 1) + k2) in
+    (re - er) * (re - er) + (im - ei) * (im - ei) <= (k' * k') * (er * er + ei * ei)).
+Proof. exact (fun rnd u H => conj (pow_sqr_step rnd u H) (pow_mul_step rnd u H)). Qed.
+Print Assumptions C13_mpc_pow_si_step_err_partial.
